@@ -331,7 +331,7 @@ func (h *ibcH) reset() {
 		for _, d := range h.denoms {
 			v := h.balOf(n, d)
 			if !v.IsZero() {
-				bs = append(bs, fmt.Sprintf("%s:%s:%s", n, h.dn(d), v))
+				bs = append(bs, fmt.Sprintf("%s~%s~%s", n, h.dn(d), v))
 			}
 		}
 	}
@@ -574,7 +574,11 @@ func (h *ibcH) memoSpec(memo string) string {
 	if md.InterfaceProvider != "" {
 		prov = h.nm(md.InterfaceProvider)
 	}
-	return fmt.Sprintf("memo=swap rin=%s rout=%s strat=%s provider=%s change=%s forward=%s", h.dn(md.Route.DenomIn), h.dn(md.Route.DenomOut), strat, prov, chg, legStr(h, md.Forward))
+	pool := "pool-"
+	if x, ok := md.Route.Strategy.(*swaptypes.Route_Pool); ok {
+		pool = fmt.Sprintf("pool%d", x.Pool.PoolId)
+	}
+	return fmt.Sprintf("memo=swap rin=%s rout=%s pool=%s strat=%s provider=%s change=%s forward=%s", h.dn(md.Route.DenomIn), h.dn(md.Route.DenomOut), pool, strat, prov, chg, legStr(h, md.Forward))
 }
 
 // dryRunSwap: the swap result is a boundary parameter of the model (the swap itself is another property's subject):
